@@ -146,6 +146,19 @@ CanExport(k, fmt) ==
     /\ (fmt \in {"hex01", "bytes01"} => k.compressed)
     /\ (fmt \in ExtFmts => k.hd /\ Defined(Cfg(k)))
 
+(* ------------------------------------------------------------------------ *)
+(* Key objects have a history: calls made on the same object before an       *)
+(* export.  Only network_change alters the abstract key (its network); every *)
+(* other call is an observer.  An export is a function of the key's CURRENT  *)
+(* attributes: Export(After(k, hist), fmt) - nothing an earlier call         *)
+(* computed (for another network, another version byte) may show through.    *)
+(* ------------------------------------------------------------------------ *)
+\* "export": the export that is judged afterwards, made once before already
+ObserverOps == {"export", "wif", "wif_key", "wif_private", "wif_public", "address", "public", "as_dict"}
+Apply(k, op) == IF op.op = "network_change" THEN [k EXCEPT !.network = op.n] ELSE k
+RECURSIVE After(_, _)
+After(k, hist) == IF hist = <<>> THEN k ELSE After(Apply(k, Head(hist)), Tail(hist))
+
 WifPayload(k) == <<WifVersion(k.network)>> \o k.secret \o (IF k.compressed THEN <<1>> ELSE <<>>)
 \* BIP32: version depth fingerprint childnumber chaincode (00 k | serP(K)); serP is always the compressed form
 XPayload(k, priv) == XVersion(Cfg(k), priv) \o <<k.depth>> \o k.fp \o k.index \o k.chain
